@@ -206,11 +206,13 @@ on...",
 
         restart_from = min([me.status.slot for me in MS if me.status.restart] + [size - 1])
 
-        if S.status.slot < restart_from:
-            MS[restart_from - S.status.slot].status.restarts_in_a_row = 0
+        # the step in slot j of the next block continues the step in slot j + restart_from of this block. The steps are
+        # processed in ascending order, so the step we read from has not been updated yet (same as in the MPI version)
+        if S.status.slot + restart_from < size:
+            step = MS[S.status.slot + restart_from]
+            S.status.restarts_in_a_row = step.status.restarts_in_a_row + 1 if step.status.restart else 0
         else:
-            step = MS[S.status.slot - restart_from]
-            step.status.restarts_in_a_row = S.status.restarts_in_a_row + 1 if S.status.restart else 0
+            S.status.restarts_in_a_row = 0
 
         return None
 
